@@ -82,6 +82,7 @@ RArctanh(a) == CHOOSE r \in Rational : TRUE
 RPow(a, b)  == CHOOSE r \in Rational : TRUE     \* a^b for real b
 RFiniteD(a) == CHOOSE t \in BOOLEAN : TRUE      \* a is representable as a finite double
 RRoundToDouble(a) == CHOOSE r \in Rational : TRUE   \* the IEEE double nearest to a (an exact rational again)
+RRoundSeq(s) == [i \in 1..Len(s) |-> RRoundToDouble(s[i])]
 RErf(a)     == CHOOSE r \in Rational : TRUE
 RLGamma(a)  == CHOOSE r \in Rational : TRUE
 \* sign of Wolff's windowing function exp(-W/tau) - tau/sqrt(W N),
